@@ -187,7 +187,11 @@ func model(sc Scenario) expectation {
 		ex.fs[filepath.Clean(f.Path)] = f
 	}
 	before := ex.fs.clone()
-	f, err := parseArgs(sc.Args)
+	margs := make([]string, len(sc.Args))
+	for i, a := range sc.Args {
+		margs[i] = strings.ReplaceAll(a, "{{WD}}/", "") // the model lives in the working directory
+	}
+	f, err := parseArgs(margs)
 	if err != nil {
 		ex.undef = err.Error()
 		return ex
@@ -671,7 +675,12 @@ func execute(sc Scenario) (outcome, error) {
 	if err := materialise(work, sc.Files); err != nil {
 		return outcome{}, fmt.Errorf("HARNESS: %v", err)
 	}
-	cmd := exec.Command(cli, sc.Args...)
+	// {{WD}} in an argument is the absolute path of the working directory: another spelling of the same place
+	args := make([]string, len(sc.Args))
+	for i, a := range sc.Args {
+		args[i] = strings.ReplaceAll(a, "{{WD}}", work)
+	}
+	cmd := exec.Command(cli, args...)
 	cmd.Dir = work
 	cmd.Env = append(os.Environ(), "HOME="+parent, "XDG_CONFIG_HOME="+parent)
 	if sc.Stdin != nil {
@@ -998,7 +1007,16 @@ func genScenario(t *rapid.T) Scenario {
 		if rapid.IntRange(0, 3).Draw(t, "all") == 0 {
 			args = append(args, "-a")
 		}
-		args = append(args, "-o", "mirror/", d)
+		switch rapid.IntRange(0, 5).Draw(t, "syncdst") {
+		case 0:
+			// onto itself, spelled alike: matching files are minified in place, the others stay
+			args = append(args, "-o", strings.TrimSuffix(d, "/")+"/", d)
+		case 1:
+			// onto itself under another spelling
+			args = append(args, "-o", "{{WD}}/"+strings.TrimSuffix(d, "/")+"/", d)
+		default:
+			args = append(args, "-o", "mirror/", d)
+		}
 	case "filters":
 		d := pick("dir", dirs)
 		args = append(args, "-r", "-o", "out/")
